@@ -26,6 +26,26 @@ theorem C17_unroll_slices (tm : DBNTemplate) (T : Nat) :
     rw [List.range_succ, List.flatMap_append]
     simp [List.append_assoc]
 
+/-- **stationarity of the unrolled network**: shifting composes, so the CPD that slice t+1 gets is the CPD of slice t
+    moved one slice further - every slice carries the same transition tables -/
+theorem C17_shift_add (d e t k : Nat) (f : Factor) :
+    (f.shift d).shift e = f.shift (d + e) ∧ (f.shift (t * k)).shift k = f.shift ((t + 1) * k) := by
+  have h : ∀ d e, (f.shift d).shift e = f.shift (d + e) := by
+    intro d e
+    unfold Factor.shift
+    simp [List.map_map, Function.comp_def, Nat.add_assoc]
+  exact ⟨h d e, by rw [h, Nat.succ_mul]⟩
+
+/-- **a longer horizon only appends**: the factors of the network unrolled to T are a prefix of those of the network
+    unrolled to T + n - unrolling further never alters the CPDs of earlier slices -/
+theorem C17_unroll_prefix (tm : DBNTemplate) (T n : Nat) : ∃ rest, tm.unroll (T + n) = tm.unroll T ++ rest := by
+  induction n with
+  | zero => exact ⟨[], by simp⟩
+  | succ n ih =>
+    obtain ⟨r, hr⟩ := ih
+    refine ⟨r ++ tm.cpd1.map (Factor.shift ((T + n) * tm.k)), ?_⟩
+    rw [← Nat.add_assoc, (C17_unroll_slices tm (T + n)).2, hr, List.append_assoc]
+
 /-- shifted CPDs are well-formed for the unrolled network's cardinalities -/
 theorem C17_unroll_wf (K : Var → Nat) (d : Nat) (f : Factor) (hf : f.WF (fun v => K (v + d))) :
     (f.shift d).WF K := by
